@@ -50,7 +50,7 @@ namespace ip {
 
 		const chrono::high_resolution_clock::time_point start_time =
 			m_queue.empty() ? chrono::high_resolution_clock::now() :
-			m_queue.front().completion_time;
+			m_queue.back().completion_time;
 
 		assert(!m_ios->get_ips().empty() && "internal io service objects can only "
 			"be used for timers");
